@@ -173,4 +173,20 @@ theorem run_append (pre X : List Str) : ∀ d, run d (pre ++ X) = (runPre d pre)
   | nil => intro d; simp [runPre]
   | cons l ls ih => intro d; simp [run, runPre, ih, List.append_assoc]
 
+/-- every line is rewritten to at least one line (so the decomposition `X0 ++ [xl]` asked for by `source_trailing` always exists) -/
+theorem step_snd_split (d : Bool) (l : Str) : ∃ X0 xl, (step d l).2 = X0 ++ [xl] := by
+  unfold step stepS
+  split
+  · exact ⟨[], l, rfl⟩
+  · split
+    · exact ⟨[], l, rfl⟩
+    · split
+      · exact ⟨[], l, rfl⟩
+      · split
+        · exact ⟨[], l, rfl⟩
+        · simp only [subLine]
+          cases matchDots l with
+          | none => exact ⟨[], l, rfl⟩
+          | some p => exact ⟨[] :: expansion.map (p.1 ++ ·), p.2, by simp⟩
+
 end NemoVerif.PreExpand
